@@ -52,6 +52,8 @@ def tasks(tier, seed):
     out += [('dense',) + t for t in corpus.dense_tasks(tier)]
     out += [('tagarrays', t) for t in 'tbBsuIilLfdDSTFVx']
     out += [('L-reading', part) for part in range(4)]
+    from mc import values
+    out += values.codepoint_tasks()
     return out
 
 
@@ -420,6 +422,8 @@ def run(task, ctx):
                 vb = b'A' + struct.pack('>I', len(body)) + body
                 check_value(ctx, vb, 'array of %d x tag %s' % (n, tag),
                             through_frame=(n % 8 == 0))
+    elif kind == 'codepoints':
+        run_codepoints(ctx, task[1], task[2])
     elif kind == 'L-reading':
         run_l_reading(ctx, task[1])
     elif kind == 'dense':
@@ -443,6 +447,68 @@ def run(task, ctx):
                     'method': m.name, 'vec': short(list(vec), 120),
                     'channel': ch})
                 check_frame(ctx, data, m.name)
+
+
+def run_codepoints(ctx, lo, hi):
+    """Every code point alone / first / last in a long string and in field
+    names, reference-encoded, decoded by the library: array value, table
+    value, long-string and short-string method arguments."""
+    from mc import values
+    p = lib.pamqp()
+    so = spec_table.BY_NAME['Connection.SecureOk']
+    pub = spec_table.BY_NAME['Basic.Publish']
+    for first, strings, names in values.codepoint_blocks(lo, hi):
+        ctx.case(('cp', first), True, sample=lambda: {
+            'code_points': '%#x..%#x' % (first, first + values.CP_BLOCK - 1)})
+        case = {'kind': 'codepoints', 'lo': first,
+                'hi': first + values.CP_BLOCK}
+        for label, data, dec, want in (
+                ('array of strings', refcodec.enc_array(strings),
+                 p.decode.field_array, strings),
+                ('field names', refcodec.enc_table(names),
+                 p.decode.field_table, names)):
+            try:
+                consumed, got = dec(data)
+                ctx.calls()
+                ctx.valid()
+                ok = consumed == len(data) and lib.canon(got) == \
+                    lib.canon(want)
+            except Exception as exc:  # noqa
+                ok, got = False, repr(exc)
+            if not ok:
+                diff = ''
+                if isinstance(got, list):
+                    for a, b in zip(want, got):
+                        if a != b:
+                            diff = ' (sent %r, decoded %r)' % (a, b)
+                            break
+                ctx.outcome('mismatch')
+                ctx.violation('accept|codepoints|%#x|%s' % (first, label),
+                              '%s with code points %#x..%#x: decoded value '
+                              'differs from what was sent%s' % (
+                                  label, first,
+                                  first + values.CP_BLOCK - 1, diff), case,
+                              short(want, 200), short(got, 200))
+            else:
+                ctx.outcome('ok')
+        # as method arguments (long string / short string), three per block
+        for s in (strings[0], strings[1], strings[-1]):
+            for m, vec, idx in ((so, (s,), 0),
+                                (pub, (0, '', s, False, False), 2)):
+                data, _f = refcodec.enc_method_frame(m, vec, 1)
+                out = lib.unmarshal_outcome(data)
+                ctx.calls()
+                ctx.valid()
+                if out[0] != 'ok' or getattr(out[3], m.args[idx][0]) != s:
+                    ctx.outcome('mismatch')
+                    ctx.violation('accept|codepoints|%#x|%s' % (first, m.name),
+                                  '%s argument %r was decoded as %s' % (
+                                      m.name, s, short(
+                                          getattr(out[3], m.args[idx][0])
+                                          if out[0] == 'ok' else out[1],
+                                          80)), case, repr(s), 'other')
+                else:
+                    ctx.outcome('ok')
 
 
 def run_l_reading(ctx, part):
@@ -532,6 +598,9 @@ def run_l_reading(ctx, part):
 
 
 def replay(case, ctx):
+    if case['kind'] == 'codepoints':
+        run_codepoints(ctx, case['lo'], case['hi'])
+        return
     if case['kind'] == 'value-L':
         for part in range(4):
             run_l_reading(ctx, part)
